@@ -1,6 +1,11 @@
 package store
 
-import "testing"
+import (
+	"testing"
+
+	"github.com/douban/gobeansdb/verifkit"
+	"pgregory.net/rapid"
+)
 
 // C03: GC never changes what any key reads (also after restart with rebuilt indexes, repeated GC, further writes).
 var c03GC = &histCheck{
@@ -12,6 +17,30 @@ var c03GC = &histCheck{
 			p.maxOps = 150
 		}
 		return p
+	},
+	// "an older value in a file outside the collected range can never come back to life": in a third of the cases the
+	// generated history is wrapped into that situation - a key written into a short first file, deleted later, the tree
+	// rebuilt (it forgets the tombstone), a pass that starts above file 0, and a restart with rebuilt indexes
+	postGen: func(t *rapid.T, h *History) {
+		if len(h.Ops) < 4 || rapid.IntRange(0, 2).Draw(t, "resurrection_template") != 0 {
+			return
+		}
+		nk := len(h.Cfg.Keys)
+		k0 := rapid.IntRange(0, nk-1).Draw(t, "tk")
+		k1 := rapid.IntRange(0, nk-1).Draw(t, "tk_other")
+		a := rapid.IntRange(0, len(h.Ops)/2).Draw(t, "ta")
+		b := rapid.IntRange(a, len(h.Ops)).Draw(t, "tb")
+		var ops []Op
+		ops = append(ops, Op{Kind: "set", K: k0, V: verifkit.ValSpec{Class: "text", Size: rapid.IntRange(1, 200).Draw(t, "tsize"), Salt: 3}})
+		ops = append(ops, Op{Kind: "rotate", K: k1, V: verifkit.ValSpec{Salt: 5}})
+		ops = append(ops, h.Ops[:a]...)
+		ops = append(ops, Op{Kind: "delete", K: k0})
+		ops = append(ops, h.Ops[a:b]...)
+		ops = append(ops, Op{Kind: "rotate", K: k1, V: verifkit.ValSpec{Salt: 6}})
+		ops = append(ops, Op{Kind: "reopen", Mask: rapid.SampledFrom([]string{"all", "hash", "all"}).Draw(t, "tmask")})
+		ops = append(ops, Op{Kind: "gc", Begin: rapid.SampledFrom([]int{1, 1, 2, 3}).Draw(t, "tbegin"), End: -1, Merge: rapid.Bool().Draw(t, "tmerge"), Mask: "all"})
+		ops = append(ops, h.Ops[b:]...)
+		h.Ops = ops
 	},
 	opts: func() runOpts { return runOpts{} },
 	nontrivial: func(r *histRunner) bool {
